@@ -84,13 +84,22 @@ class Ctx:
                 ctx._rename = self_.old
         return _R()
 
-    def _map(self, rule):
+    def _map1(self, rule):
         r = self._rename.get(rule)
         if r is not None:
             return r
         for k, v in self._rename.items():
             if k.endswith("*") and rule.startswith(k[:-1]):
                 return v
+        return rule
+
+    def _map(self, rule):
+        # nested shared rule functions: apply the renames transitively, but only across properties
+        for _ in range(4):
+            r = self._map1(rule)
+            if r == rule or r[:3] == self.prop[:3] and rule[:3] == self.prop[:3]:
+                return r if r[:3] == self.prop[:3] else rule
+            rule = r
         return rule
 
     def ok(self, rule, where, detail, nontrivial=True, sample=None):
